@@ -171,6 +171,7 @@ static STD_LIBS: &[(&str, &str)] = "#
 }
 
 fn main() {
+    println!("cargo::rustc-check-cfg=cfg(gluon_verif)");
     gen_skeptic::generate();
 
     example_24_up_to_date();
